@@ -333,16 +333,16 @@ func (cl *Cluster) handle(sc *SConn, frame []byte) {
 	switch rq.Header.Opcode {
 	case cqlspec.OpOptions:
 		sc.Advertised = cl.Supported["COMPRESSION"]
-		cl.Send(sc, rec, &cqlspec.Response{Op: cqlspec.OpSupported, Supported: cl.Supported}, cl.SystemFate, "SUPPORTED")
+		cl.Send(sc, rec, &cqlspec.Response{Op: cqlspec.OpSupported, Supported: cl.Supported}, cl.systemFate(sc, rec), "SUPPORTED")
 	case cqlspec.OpStartup:
 		sc.Compression = rq.Options["COMPRESSION"]
 		// the STARTUP reply itself is never compressed
 		if cl.AuthClass != "" {
 			sc.NeedAuth = true
-			cl.sendRaw(sc, rec, &cqlspec.Response{Op: cqlspec.OpAuthenticate, AuthClass: cl.AuthClass}, cl.SystemFate, "AUTHENTICATE", false)
+			cl.sendRaw(sc, rec, &cqlspec.Response{Op: cqlspec.OpAuthenticate, AuthClass: cl.AuthClass}, cl.systemFate(sc, rec), "AUTHENTICATE", false)
 		} else {
 			sc.Started = true
-			cl.sendRaw(sc, rec, &cqlspec.Response{Op: cqlspec.OpReady}, cl.SystemFate, "READY", false)
+			cl.sendRaw(sc, rec, &cqlspec.Response{Op: cqlspec.OpReady}, cl.systemFate(sc, rec), "READY", false)
 		}
 	case cqlspec.OpAuthResponse:
 		if cl.OnAuthResponse != nil {
@@ -351,14 +351,14 @@ func (cl *Cluster) handle(sc *SConn, frame []byte) {
 		sc.AuthRound++
 		if sc.AuthRound < cl.AuthRounds {
 			// a SASL mechanism with several steps
-			cl.Send(sc, rec, &cqlspec.Response{Op: cqlspec.OpAuthChallenge, AuthToken: []byte(fmt.Sprintf("challenge-%d", sc.AuthRound))}, cl.SystemFate, "AUTH_CHALLENGE")
+			cl.Send(sc, rec, &cqlspec.Response{Op: cqlspec.OpAuthChallenge, AuthToken: []byte(fmt.Sprintf("challenge-%d", sc.AuthRound))}, cl.systemFate(sc, rec), "AUTH_CHALLENGE")
 			return
 		}
 		sc.Started, sc.Authed = true, true
-		cl.Send(sc, rec, &cqlspec.Response{Op: cqlspec.OpAuthSuccess, AuthNull: true}, cl.SystemFate, "AUTH_SUCCESS")
+		cl.Send(sc, rec, &cqlspec.Response{Op: cqlspec.OpAuthSuccess, AuthNull: true}, cl.systemFate(sc, rec), "AUTH_SUCCESS")
 	case cqlspec.OpRegister:
 		sc.Registered = rq.EventTypes
-		cl.Send(sc, rec, &cqlspec.Response{Op: cqlspec.OpReady}, cl.SystemFate, "READY")
+		cl.Send(sc, rec, &cqlspec.Response{Op: cqlspec.OpReady}, cl.systemFate(sc, rec), "READY")
 	case cqlspec.OpQuery:
 		if cl.systemQuery(sc, rec) {
 			return
